@@ -273,7 +273,7 @@ def st_history(be, hiN):
 
 
 FACETS.append(Facet('np/map-histories', f_history, strategy=lambda t: st_history('np', 4), examples={'quick': 1200, 'thorough': 50000}, shards={'quick': 2, 'thorough': 8}))
-FACETS.append(Facet('torch/map-histories', f_history, strategy=lambda t: st_history('torch', 3), examples={'quick': 150, 'thorough': 6000}, shards={'quick': 1, 'thorough': 4}, backend='torch'))
+FACETS.append(Facet('torch/map-histories', f_history, strategy=lambda t: st_history('torch', 3), examples={'quick': 600, 'thorough': 6000}, shards={'quick': 1, 'thorough': 4}, backend='torch'))
 
 
 from checks import large as _large
